@@ -29,6 +29,8 @@
 #include <cstring>
 #include <memory>
 #include <random>
+#include <type_traits>
+#include <utility>
 #include <primitiv/primitiv.h>
 
 using namespace primitiv;
@@ -103,6 +105,25 @@ static std::vector<float> dropout_input(std::uint32_t n) {
    : via == PTR ? F::random::FN<VAR>(__VA_ARGS__, &D)                         \
                 : F::random::FN<VAR>(__VA_ARGS__))
 
+// `random::log_normal<Var>(shape, mean, sd, Device *)` and `random::log_normal<Var>(shape, mean, sd)`
+// do not compile on a tree where the primary template is declared with `Device &`
+// (the body of the default-device overload passes `nullptr`).  Detected here, so
+// that the harness builds on both trees; the request is answered `err-nocompile`.
+struct NoCompile {};
+template <class Var, class = void> struct HasLnPtr : std::false_type {};
+template <class Var>
+struct HasLnPtr<Var, decltype(void(F::random::log_normal<Var>(
+    std::declval<const Shape &>(), 0.f, 0.f, static_cast<Device *>(nullptr))))> : std::true_type {};
+template <class Var>
+static typename std::enable_if<HasLnPtr<Var>::value, Var>::type
+ln_via(Via via, const Shape &s, float a, float b, Device &D) {
+  if (via == PTR) return F::random::log_normal<Var>(s, a, b, &D);
+  return F::random::log_normal<Var>(s, a, b);
+}
+template <class Var>
+static typename std::enable_if<!HasLnPtr<Var>::value, Var>::type
+ln_via(Via, const Shape &, float, float, Device &) { throw NoCompile(); }
+
 template <class Var>
 static Var call_random(const std::string &kind, Via via, const Shape &s, float a, float b, Device &D) {
   if (kind == "bernoulli") return VIA3(bernoulli, Var, s, a);
@@ -111,12 +132,7 @@ static Var call_random(const std::string &kind, Via via, const Shape &s, float a
   if (kind == "gumbel") return VIA3(gumbel, Var, s, a, b);
   if (kind == "log_normal") {
     if (via == REF) return F::random::log_normal<Var>(s, a, b, D);
-#ifdef VERIF_HAVE_LN_FIX
-    if (via == PTR) return F::random::log_normal<Var>(s, a, b, &D);
-    return F::random::log_normal<Var>(s, a, b);
-#else
-    throw BadOp();
-#endif
+    return ln_via<Var>(via, s, a, b, D);
   }
   throw BadOp();
 }
@@ -184,11 +200,13 @@ static Out run_on(const Req &r, Device &D) {
   if (!r.node) {
     try { o = of_tensor(call_random<Tensor>(r.op, r.via, r.shape, r.a, r.b, D)); }
     catch (const Error &) { o.err = "err"; }
+    catch (const NoCompile &) { o.err = "err-nocompile"; }
     return o;
   }
   Node y;
   try { y = call_random<Node>(r.op, r.via, r.shape, r.a, r.b, D); }
   catch (const Error &) { o.err = "err@create"; return o; }
+  catch (const NoCompile &) { o.err = "err-nocompile"; return o; }
   try {
     o.v = y.to_vector(); o.shape = y.shape().to_string();
     // a second read of the same node must not draw again
@@ -302,9 +320,6 @@ static std::string exec(const std::vector<std::string> &w0) {
   } else {
     throw BadOp();
   }
-#ifndef VERIF_HAVE_LN_FIX
-  if (op == "log_normal" && r.via != REF) throw BadOp();
-#endif
   // syntax of the shape token (the Shape itself is built after the device check)
   if (shape_tok.compare(0, 2, "S:") != 0) throw BadOp();
   std::vector<std::string> sp = vh::split(shape_tok.substr(2), '/');
